@@ -357,6 +357,30 @@ func c05E2E(r *vlib.Run) {
 				t.GroupFields = append(t.GroupFields, "$hostname")
 			}
 			q := mq.GenQuery(frng, t)
+			if ci < 2 && format != "csv" {
+				// a result with thousands of groups: the partial results of a server
+				// are far larger than one transport read of the client
+				for len(t.Lines) < 2500 {
+					t = mq.GenTable(frng, format, 6000)
+				}
+				q = mq.GenQuery(frng, t)
+				idField, numField := "", ""
+				for _, f := range t.StrFields {
+					if strings.Contains(f, "id") {
+						idField = f
+					}
+				}
+				for _, f := range t.NumFields {
+					if strings.Contains(f, "bytes") {
+						numField = f
+					}
+				}
+				if idField != "" && numField != "" {
+					q.Sel = []mq.Sel{{Field: idField}, {Agg: "count", Field: idField}, {Agg: "sum", Field: numField}, {Agg: "max", Field: numField}}
+					q.GroupBy, q.Where, q.Set, q.OrderBy, q.Limit = []string{idField}, nil, nil, "", nil
+					r.Count("e2e_runs_with_thousands_of_groups", 1)
+				}
+			}
 			out := filepath.Join(fl.Home, fmt.Sprintf("out%d.csv", ci))
 			os.Remove(out)
 			q.Outfile = &mq.Outfile{Path: out, Quoted: true}
